@@ -116,6 +116,13 @@ def replay_entry(body):
     for idx, msg in judge_file(path, n, conn):
         if idx == body["line"]:
             return msg
+    # not failing on its own: the scan reads the files one after the other in one process -- replay it that way
+    for p2, n2, c2 in tables.table_files("stabilizer"):
+        for idx, msg in judge_file(p2, n2, c2):
+            if os.path.basename(p2) == body["file"] and idx == body["line"]:
+                return "[history-dependent: only after the lookups for the table files read before it] " + msg
+        if os.path.basename(p2) == body["file"]:
+            break
     return None
 
 
